@@ -356,7 +356,7 @@ class KrigingSurrogate(SurrogateModel):
         # Normalize input
         x_n = (x - self.X_mean) / self.X_std
 
-        r = np.zeros((n_eval, self.n_samples), dtype=x.dtype)
+        r = np.zeros((n_eval, self.n_samples), dtype=x_n.dtype)
         for r_i, x_i in zip(r, x_n):
             r_i[:] = np.exp(-thetas.dot(np.square((x_i - self.X).T)))
 
